@@ -36,7 +36,7 @@ import mulgrids
 
 RECT_TIMEOUT = 20         # seconds per generated case (each takes a fraction of a second)
 SHIPPED_TIMEOUT = 120     # seconds per shipped-geometry case (each takes a few seconds)
-PER_CATEGORY_CAP = 6
+PER_CLASS_CAP = 3         # failures listed per (category, population); all are counted
 FT = 0.3048
 BLOCK_ORDER_CODE = {None: None, 'layer_column': 0, 'dmplex': 1}     # MULgraph header, own table
 
@@ -935,15 +935,18 @@ def main():
             skipped.update(k)
             samples += s
         samples = samples[:3] + samples[-3:] if len(samples) > 6 else samples
+        def klass(f):
+            key = f['key']
+            pop = key[key.index('[') + 1:].split(' ')[0] if '[' in key else ''
+            return key.split(' ')[0] + '/' + pop
         shown, percat = [], Counter()
         for f in fails:
-            cat = f['key'].split(' ')[0]
-            if percat[cat] < PER_CATEGORY_CAP and len(shown) < 60:
+            if percat[klass(f)] < PER_CLASS_CAP and len(shown) < 60:
                 shown.append(f)
-            percat[cat] += 1
+            percat[klass(f)] += 1
         out = {'evaluations': sum(ev.values()), 'distinct': len(distinct), 'failures': shown, 'nfailures': len(fails),
                'samples': samples, 'seconds': time.time() - t0, 'evaluations_by_contract': dict(ev),
-               'failures_by_category': dict(percat), 'skipped_outside_quantifier': dict(skipped)}
+               'failures_by_category_and_population': dict(percat), 'skipped_outside_quantifier': dict(skipped)}
     finally:
         shutil.rmtree(tmpdir, ignore_errors=True)
     print('@@JSON@@' + json.dumps(out))
